@@ -227,7 +227,7 @@ open Extracted in
 theorem exampleIrr_B_fixedpoint :
     let r := exReplay (exBlock 2 2 418) (exFrames [-123, -122, -122] 16 23 1 0 0 false) [2, 255]
     let s := startOf (exBlock 2 2 418)
-    let i := exIrr s.version (portOccupancy s) (exFrames [-123, -122, -122] 16 23 1 0 0 false) []
+    let i := exIrr s.version 418 2 none (portOccupancy s) (exFrames [-123, -122, -122] 16 23 1 0 0 false) []
     ∃ g y, readSlp T0 { skipFrames := false, computeHash := false } (r.fileIrr s none i).encode = .ok g ∧ writeSlp g = .ok y ∧
       readSlp T0 { skipFrames := false, computeHash := false } y = .ok g :=
   _root_.Peppi.exampleIrr_B_fixedpoint 
